@@ -1,4 +1,5 @@
 pub mod build;
+pub mod exact;
 pub mod gen;
 pub mod model;
 pub mod observe;
